@@ -108,6 +108,10 @@ def gen_case(ctx, g, focus=None):
             # any order, duplicates allowed, an index one past the widest record (then nothing is removed from shorter records);
             # with DISTINCT / DISTINCT COUNT / TOP on top (the count is prepended to the record the writer kept)
             qa['kind'] = ('except', [r.randint(0, na) for _ in range(r.randint(1, 3))])
+            if r.random() < 0.25:
+                # a wide table and column numbers of two digits next to small ones (10 sorts before 2 as TEXT, after it as a number)
+                A = [row + [r.choice(CELLS[:5]) for _ in range(12 - len(row))] for row in A]
+                qa['kind'] = ('except', r.sample([0, 1, 2, 3], r.randint(1, 2)) + r.sample([9, 10, 11], r.randint(1, 2)))
             qa['distinct'] = r.choice([0, 0, 1, 2, 2])
             qa['top'] = r.choice([None, None, 1])
             if r.random() < 0.4 and A and qa['where'] is None:     # (null arithmetic is not language-neutral: no WHERE over missing fields)
